@@ -148,6 +148,50 @@ def build(ctx, name, fn, args, rep):
         return None
 
 
+def inexact_spacing_cases(ctx):
+    """spacings that are not binary fractions (outside the exact-rational model): the number of rows / columns is exact, the
+    positions are compared with a relative tolerance of 1e-9, the deprecated builder still equals its replacement"""
+    from bloqade.shuttle.stdlib.layouts import single_col_zone, two_col_zone
+    from bloqade.shuttle.stdlib import spec as old_spec
+    N = ctx.pick(8, 16)
+    close = lambda a, b: abs(a - b) <= 1e-9 * max(1.0, abs(a), abs(b))
+    n_ok = 0
+    for s in (0.1, 0.2, 0.3, 0.7, 10.1):
+        for nx, ny in [(n, 2) for n in range(1, N + 1)] + [(2, n) for n in range(1, N + 1)]:
+            rep = {"builder": "single", "args": [nx, ny, s]}
+            S = build(ctx, "single_col_zone.get_spec", single_col_zone.get_spec, (nx, ny, s), rep)
+            D = build(ctx, "stdlib.spec.single_zone_spec", old_spec.single_zone_spec, (nx, ny, s), rep)
+            if S is None or D is None:
+                continue
+            ctx.evaluations += 1
+            z = S.layout.static_traps.get("traps")
+            ok = (z is not None and tuple(z.shape) == (nx, ny)
+                  and all(close(x, i * s) for i, x in enumerate(z.x_positions)) and all(close(y, j * s) for j, y in enumerate(z.y_positions)))
+            if not ok:
+                ctx.fail({"builder": "single_col_zone.get_spec", "problem": "sites", "spacing_kind": "not a binary fraction"}, rep,
+                         f"single_col_zone.get_spec({nx},{ny},{s}): zone has shape {None if z is None else tuple(z.shape)} / positions off the requested {nx}x{ny} grid at spacing {s}")
+            elif not (S == D):
+                ctx.fail({"builder": "deprecated", "problem": "differs from replacement", "spacing_kind": "not a binary fraction"}, rep,
+                         f"deprecated single_zone_spec({nx},{ny},{s}) differs from single_col_zone.get_spec")
+            else:
+                n_ok += 1
+        for nx in range(1, min(N, 8) + 1):
+            rep = {"builder": "two_col", "args": [nx, 2, s, 0.3]}
+            T = build(ctx, "two_col_zone.get_spec", two_col_zone.get_spec, (nx, 2, s, 0.3), rep)
+            if T is None:
+                continue
+            ctx.evaluations += 1
+            L, R, Z = (T.layout.static_traps.get(k) for k in ("left_traps", "right_traps", "traps"))
+            ok = (L is not None and R is not None and Z is not None and tuple(L.shape) == (nx, 2) and tuple(R.shape) == (nx, 2) and tuple(Z.shape) == (2 * nx, 2)
+                  and all(close(x, i * (s + 0.3)) for i, x in enumerate(L.x_positions)) and all(close(r, l + 0.3) for l, r in zip(L.x_positions, R.x_positions)))
+            if not ok:
+                ctx.fail({"builder": "two_col_zone.get_spec", "problem": "geometry", "spacing_kind": "not a binary fraction"}, rep,
+                         f"two_col_zone.get_spec({nx},2,{s},0.3): left/right/traps zones are not {nx} pairs at pitch {s}+0.3")
+            else:
+                n_ok += 1
+    ctx.count("builder calls with spacings that are not binary fractions: agree within 1e-9", n_ok)
+
+
 def builder_histories(ctx):
     """what a builder returns does not depend on which builders were called before it, and a value already
     returned is not changed by later calls (every ordered pair of builders, each called before and after the other)"""
@@ -219,6 +263,7 @@ def run(ctx):
                 ctx.evaluations += 1
                 ctx.nt(("two_col", nx, ny, s, gs))
     builder_histories(ctx)
+    inexact_spacing_cases(ctx)
     B, Lg = base_spec.get_base_spec(), logical.get_spec()
     oracle_gemini(ctx, B, Lg)
     cases.append(("show_spec gemini_base_spec", show_spec(B), "gemini base"))
